@@ -10,6 +10,7 @@ package kcp
 // quarantine + poison + ownership map, on in every scenario.
 
 import (
+	"sync"
 	"fmt"
 	"testing"
 	"testing/synctest"
@@ -270,6 +271,26 @@ func runCloseScript(t *testing.T, rec *vrec, sc *sessScenario, rng *vrng, point 
 	}
 	w.flows = map[string]*wireFlow{}
 	w.mu.Unlock()
+	// out-of-band senders (a heartbeat, say) do not know about Close: they go on
+	// calling SendOOB through the script and after it
+	oobStop := make(chan struct{})
+	var oobWg sync.WaitGroup
+	if sc.Link.D > 0 {
+		for _, s := range []*UDPSession{client, server} {
+			oobWg.Add(1)
+			go func(s *UDPSession) {
+				defer oobWg.Done()
+				for i := 0; ; i++ {
+					s.SendOOB([]byte("still there?"))
+					select {
+					case <-oobStop:
+						return
+					case <-time.After(time.Duration(1+i%7) * time.Millisecond):
+					}
+				}
+			}(s)
+		}
+	}
 	// the Close script
 	for i, u := range order {
 		switch u {
@@ -288,6 +309,16 @@ func runCloseScript(t *testing.T, rec *vrec, sc *sessScenario, rng *vrng, point 
 			time.Sleep(time.Duration(gaps[i]) * time.Millisecond)
 		}
 	}
+	if sc.Link.D > 0 {
+		time.Sleep(30 * time.Millisecond)
+		for i := 0; i < 10; i++ {
+			client.SendOOB([]byte("late"))
+			server.SendOOB([]byte("late"))
+		}
+		rec.count("SendOOB_calls_on_closed_sessions", 20)
+	}
+	close(oobStop)
+	oobWg.Wait()
 	close(x1.abort)
 	rec.count("close_scripts_run", 1)
 	rec.count("close_point_"+point, 1)
